@@ -1325,7 +1325,7 @@ def _check_spell_terminal(ctx, d, c):
     res = r["ok"]
     exp_kind, exp_name = _spell_expected(c)
     ctx.count("spell-terminal:%s:%s" % (entry, exp_name or "unknown"))
-    model = d2 = ctx.driver("drv_misc").ask(f"c17 norm {hx(b'/sd')} upload_method S{hx(text.encode())};")
+    model = d2 = ctx.driver("drv_misc").ask(f"c17 norm 2f7364 upload_method S{text.encode().hex()};")
     m_name = {v: k for k, v in ENUM_CODES["medium"].items()}.get(model[4:]) if model.startswith("ok M") else None
     if res[0] == "ValueError":
         esc = _escapes(bytes.fromhex(res[2]))
@@ -1382,7 +1382,7 @@ def _check_spell(ctx, d, c):
     ctx.count("spell-expected:%s:%s" % (enum, exp_name if exp_kind == "ok" else "rejected"))
     # K: Medium.ofString of the model (the string branch of validate_and_normalize) on the same text
     if enum == "medium" and "text" in c and c["text"] != "auto" and " " not in c["text"] and "\n" not in c["text"]:
-        model = ctx.driver("drv_misc").ask(f"c17 norm {hx(b'/sd')} upload_method S{hx(c['text'].encode())};")
+        model = ctx.driver("drv_misc").ask(f"c17 norm 2f7364 upload_method S{c['text'].encode().hex()};")
         impl = ("ok M" + str(got.value)) if got_kind == "ok" and not wrong_type else "err invalid upload_method"
         ctx.eq("medium from text vs Medium.ofString", c, impl, model)
     # F: the spelling is accepted iff it is a documented one, and means the documented member
@@ -1557,7 +1557,12 @@ def run(ctx: Ctx):
                 "get_raw_payload / send judged against the payload held at that moment; inline transmissions through send() (first "
                 "accepted limit, small limits, 256, default) and split() with `more` unset / explicitly False / True x set by the "
                 "constructor, by assignment or by clone_with x payloads of 0, 1, one chunk -1/+0/+1, two, three and more chunks: the "
-                "written escapes read back as ONE transmission with the fields that were set and the exact payload. "
+                "written escapes read back as ONE transmission with the fields that were set and the exact payload; enum values given "
+                "by their SPELLING (literal table of the documented names: d/direct/stream, f/file, t/temp/tempfile, s/shm; 24/32 bits; "
+                "compress flag; every member by code and by name) through TransmissionMedium.from_string, TupimageConfig "
+                "(validate_and_normalize, override, dict, TOML, environment), a pty-hosted TupimageTerminal (upload_method as keyword, "
+                "environment, per-call argument of upload() of a file / an in-memory picture), Format.from_bits, Compression.from_bool: the wire "
+                "key carries the code the spelling stands for, ~40 unknown spellings and one-edit near-misses are rejected. "
                 "distinct = canonical JSON of the case; non-trivial = at least one optional field set or a payload")
     run_corpus(ctx, "C06", check_case)
     for c in itertools.chain(spell_cases(ctx), cases2(ctx), cases(ctx)):
